@@ -120,3 +120,36 @@ def non_link_frames_are_ignored(h, code):
     becomes a telegram and touches nothing."""
     h.handle_cemi_frame(CEMIFrame(code=code, data=Holder()))
     assert len(ghost("queue")) == 0 and len(ghost("mgmt")) == 0 and len(ghost("keyissue")) == 0 and len(ghost("event")) == 0
+
+
+# ------------------------------------------------------------------ from the received octets to the consumer
+
+from contracts import c03_tpci as _c03  # noqa: E402
+from contracts.cemi_common import APCI_STUBS  # noqa: E402
+from pyvc.api import rely_on  # noqa: E402
+
+
+@lemma("C14", params=dict(h=HANDLER, raw=Bytes(min_len=0, max_len=40)), stubs=APCI_STUBS)
+def a_received_frame_is_classified_by_its_octets(h, raw):
+    """handle_raw_cemi with the real parser in between, any octets: at most one consumer gets the frame, and
+    only for an L_Data.ind; a telegram in the queue means group addressed, destination not 0, the six
+    transport bits of the TPCI octet clear (the two low bits are the top of the APCI); the same octets with
+    destination 0 are a broadcast and go to management, never to the queue."""
+    h.handle_raw_cemi(raw)
+    q, m = ghost("queue"), ghost("mgmt")
+    assert len(q) + len(m) <= 1
+    if len(q) + len(m) == 0:
+        return
+    assert raw[0] == CEMIMessageCode.L_DATA_IND.value
+    ail = raw[1]
+    group = raw[3 + ail] & 0x80 != 0
+    dst = raw[6 + ail] * 256 + raw[7 + ail]
+    t_data_group_bits = raw[9 + ail] & 0xFC == 0
+    if len(q) == 1:
+        assert group and t_data_group_bits and dst != 0
+    elif group and t_data_group_bits:
+        assert dst == 0
+
+
+# the transport-layer decoder between the octets and telegram_received (proved in C03) is an obligation here too
+rely_on("C14", _c03.decode_then_encode)
